@@ -146,7 +146,8 @@ def handle (op : String) (inp : Json) : Json :=
           dVC.getD i 0 == (if x.testBit i then dV1.getD i 0 else dV0.getD i 0))]
   | "additive" =>
     if jbool inp "honest" then
-      -- the harness reports an honest batch that did not complete
+      -- the harness reports an honest batch that did not complete: never expected (the masking loops
+      -- are in range for every batch, `additive_mask_loop_in_range`)
       jobj [("required", "an honest additive OT completes with recv + send = choice * alpha (additive_sum)"),
             ("coded_mask_loop_in_range", (maskLoopCoded (List.replicate (jnat inp "batch") 32) 0 64 0).isSome)]
     else
